@@ -7,6 +7,11 @@ ALL = ["C%02d" % i for i in range(1, 21)]
 
 # id -> (level category, engine, technique, level text, level note, design ref)
 CLAIMED = {
+    "C01": ("model_checking", "F",
+            "exhaustive enumeration of a bounded configuration space (chain length <=3 quick / <=4 thorough x entry point x head x latest-sync state x stop x resync x depth limits x segment size x every pre-stored subset; entries chains likewise), each configuration executed on the real subscriber/sync client/publisher over an in-memory network inside a synctest bubble and compared step by step with an integer reference model of the chain",
+            "Every configuration of the stated finite space is an execution of the real code (traces_validated_against_impl = executions): hook log, return value, SyncFinished event and count, latest-synced value, readability of reported blocks and the publisher's request log are compared with the reference model, which does not depend on segment size or pre-stored blocks, so the 'same whatever segment size / pre-stored subset' clause is decided differentially. Exhaustive over boundaries (segment ending on the stop block, depth equal to remaining length) that scripted tests do not reach.",
+            "Reference model (40 lines) is trusted; two depth-limit combinations the documentation leaves open are accepted under either reading; chain lengths bounded by the tier.",
+            "DESIGN.md 6/C01"),
     "C19": ("exploration", "I",
             "bounded-exhaustive enumeration over an in-memory HTTP network: every result list of <=2 (quick) / <=3 (thorough) results over 27 result kinds written by the real rwriter and read back by the real find client and raw JSON/NDJSON requests; 63 keys (5 hash functions x base58/hex/CID forms); every Accept header sequence of <=2 values over 9 values x both server preferences; 13 path shapes; every status 400..599 x 5 messages through apierror",
             "Written-vs-read equality, one-document / one-result-per-line framing, 404-for-empty, 4xx API errors for bad negotiation, resource type and key, and error encode/decode are each compared with a specification on every enumerated request against the real server helper and client.",
